@@ -135,6 +135,12 @@ class Impl:
             bytes(msg.payload),
         )
 
+    def values(self, msg):
+        """The typed option values as the application sees them (str, bytes,
+        int, block tuple ...): a round trip must preserve these as well, not
+        only what they serialise to."""
+        return tuple((int(o.number), o.value) for o in msg.opt.option_list())
+
     def encode(self, msg):
         msg.direction = self.Direction.OUTGOING
         return msg.encode()
@@ -178,7 +184,51 @@ UNICODE_SAMPLES = [
     "x\u00b2",  # SUPERSCRIPT TWO: not NFKC/NFKD
     "\u1e9b\u0323",  # LONG S WITH DOT ABOVE + DOT BELOW: differs in all four forms
 ]
-STRINGS = ["", "a", "core", ".well-known", "\u00e9", "\u65e5\u672c", "\U0001f600", "a" * 12, "b" * 13, "\u00e9" * 6, "x" * 268, "y" * 269, "z" * 300, "nul\x00", "tab\t"] + UNICODE_SAMPLES
+# Control characters: Net-Unicode discourages them and wants CR LF for line
+# ends, but a value that contains them is still a value the library can hold,
+# and the codec must not rewrite it (TAB and NUL were always in STRINGS).
+CONTROL_SAMPLES = [
+    "a\nb",  # bare LF
+    "a\r\nb",  # CR LF
+    "a\rb",  # bare CR
+    "\n",
+    "line\n",
+    "\r\n\r\n",
+    "\x7f",  # DEL
+    "a\x7fb",
+    "\u0085",  # NEL (C1)
+    "\u009b1m",  # CSI (C1)
+    "\x1b[0m",  # ESC
+    "\x00",
+    "\tq",
+    "\x0b\x0c",
+]
+# Values that mean something to RFC 3986 / RFC 7252 sections 5.10 and 6 (dot
+# segments, percent-encodings, delimiters, IP literals, case, the empty
+# segment): to the codec they are strings like any other -- it must neither
+# reject nor decode nor canonicalise them.
+SEGMENTS = [".", "..", "...", "%41", "%2F", "%2e%2e", "a%2Fb", "%", "%zz", "a/b", "a b", " a", "a?b", "a&b=c", "a?b=c&d", "a=b", "a#b", "[::1]", "[fe80::1%25eth0]", "", "EXAMPLE.com.", "Example.COM", "192.168.0.1", "*", "~", "+", "coap://h/p?q"]
+STRING_SWEEP = UNICODE_SAMPLES + CONTROL_SAMPLES + SEGMENTS
+# uint values with a protocol meaning (defaults and registered values of
+# RFC 7252 5.10 / 12.3, RFC 7641, RFC 7959, RFC 7967, RFC 8768), per option;
+# each is also tried in every other uint-format option
+UINT_SPECIALS = {
+    14: [60, 0, 59, 61, 2**32 - 1],  # Max-Age: default 60
+    7: [5683, 5684, 0, 80, 65535],  # Uri-Port: default ports
+    16: [16, 0, 1, 255],  # Hop-Limit: default 16
+    12: [0, 40, 41, 42, 47, 50, 60, 11050, 11542, 65535],  # Content-Format registry
+    17: [0, 40, 41, 42, 47, 50, 60, 11050, 65535],  # Accept
+    23: list(range(0, 16)) + [16 + 6, 16 + 8 + 6, (1 << 20) - 1, 7, 15],  # Block2: szx 0..7, M, NUM
+    27: list(range(0, 16)) + [16 + 6, 16 + 8 + 2],  # Block1
+    6: [0, 1, 2, 2**24 - 1],  # Observe: register / deregister
+    258: [0, 2, 8, 16, 24, 26, 127],  # No-Response bit masks
+    28: [0, 1, 1024],  # Size2
+    60: [0, 1, 1024, 2**32 - 1],  # Size1
+    13: [0, 1],
+}
+PROTOCOL_UINTS = sorted(set(v for vs in UINT_SPECIALS.values() for v in vs))
+UINTS = [0, 1, 12, 13, 255, 256, 65535, 65536, 2**24 - 1, 2**32 - 1, 2**32, 2**64 - 1, 2 ** (8 * 12) - 1, 2 ** (8 * 12), 2 ** (8 * 13) - 1] + PROTOCOL_UINTS
+STRINGS = ["", "a", "core", ".well-known", "\u00e9", "\u65e5\u672c", "\U0001f600", "a" * 12, "b" * 13, "\u00e9" * 6, "x" * 268, "y" * 269, "z" * 300, "nul\x00", "tab\t"] + STRING_SWEEP
 # string-format options of RFC 7252 (Uri-Host, Location-Path, Uri-Path, Uri-Query, Location-Query, Proxy-Uri, Proxy-Scheme)
 STRING_OPTS = [3, 8, 11, 15, 20, 35, 39]
 
@@ -195,7 +245,6 @@ def check_unicode_samples():
             raise MachineryError("string value alphabet has only %d values outside %s" % (len(outside), form))
     if not any(all(unicodedata.is_normalized(f, s) for f in ("NFC", "NFD", "NFKC", "NFKD")) and not s.isascii() for s in UNICODE_SAMPLES):
         raise MachineryError("string value alphabet has no non-ASCII value that is in all normal forms")
-UINTS = [0, 1, 12, 13, 255, 256, 65535, 65536, 2**24 - 1, 2**32 - 1, 2**32, 2**64 - 1, 2 ** (8 * 12) - 1, 2 ** (8 * 12), 2 ** (8 * 13) - 1]
 KNOWN = [1, 3, 4, 5, 6, 7, 8, 9, 11, 12, 13, 14, 15, 16, 17, 19, 20, 21, 23, 27, 28, 31, 35, 39, 60, 252, 258, 292, 548]
 UNKNOWN = [0, 2, 10, 24, 25, 26, 61, 100, 268, 269, 270, 281, 282, 300, 2048, 4096, 65000, 65534, 65535]
 LENS = [0, 1, 2, 8, 11, 12, 13, 14, 255, 267, 268, 269, 270, 300]
@@ -304,17 +353,36 @@ def boundary_messages(impl):
 
 
 def unicode_messages(impl):
-    """Every value of the string alphabet (normalised and not, in each of the
-    four normal forms) in every string-format option, alone, repeated, and all
-    string options together."""
+    """Every value of the string sweep (Unicode normal forms, control
+    characters, RFC 3986-meaningful segments) in every string-format option:
+    alone, between two ordinary values, repeated, and all string options
+    together.  Deterministic: the same at every seed."""
     nums = sorted(set(STRING_OPTS) | set(n for n in KNOWN if impl.category(n) == "string"))
     out = []
     for n in nums:
-        for s in UNICODE_SAMPLES:
+        for s in STRING_SWEEP:
             out.append((0, 1, 0x0101, b"\x07", [(n, s.encode("utf-8"))], b""))
+        for s in CONTROL_SAMPLES + SEGMENTS:
+            out.append((2, 65, 0x0103, b"", [(n, b"a"), (n, s.encode("utf-8")), (n, b"b")], b""))
         out.append((1, 2, 0x0102, b"", [(n, s.encode("utf-8")) for s in UNICODE_SAMPLES[3:9]], b"p"))
     for k, s in enumerate(UNICODE_SAMPLES):
         out.append((0, 69, 0x0200 + k, b"tk", [(n, UNICODE_SAMPLES[(k + j) % len(UNICODE_SAMPLES)].encode("utf-8")) for j, n in enumerate(nums)], b"\xffx"))
+    return out
+
+
+def uint_messages(impl):
+    """Every protocol-significant uint value in every uint-format option
+    (alone), and each option's own special values next to other options."""
+    nums = sorted(set(UINT_SPECIALS) | set(n for n in KNOWN if impl.category(n) in ("uint", "block", "cf")))
+    out = []
+    for n in nums:
+        for v in PROTOCOL_UINTS:
+            out.append((1, 69, 0x0301, b"u", [(n, uint_bytes(v))], b""))
+        for v in UINT_SPECIALS.get(n, [0, 1]):
+            opts = sorted([(4, b"\xe7"), (11, b"res"), (n, uint_bytes(v)), (292, b"")], key=lambda o: o[0])
+            out.append((0, 69, 0x0302, b"\x01\x02", opts, b"x"))
+    # all of them in one message, each with its default / first special value
+    out.append((2, 69, 0x0303, b"", [(n, uint_bytes(UINT_SPECIALS.get(n, [0])[0])) for n in nums], b"\x00"))
     return out
 
 
